@@ -160,9 +160,24 @@ def concretise(tdgl, m):
     em = EdgeMesh(centers=sites[edges].mean(axis=1), edges=edges, boundary_edge_indices=bidx, directions=dirs,
                   edge_lengths=np.array(m["len"], dtype=float), dual_edge_lengths=np.array(m["dual"], dtype=float))
     bsites = sorted(set(int(s) for s in edges[bidx].ravel()))
+    # (dual sites / Voronoi polygons are not part of an abstract instance; placeholders so that the mesh can be saved)
+    ntri = len(m["tris"])
     mesh = Mesh(sites, np.array(m["tris"], dtype=np.int64) - 1, boundary_indices=bsites,
-                areas=np.array(m["area"], dtype=float), dual_sites=None, edge_mesh=em, voronoi_polygons=None)
+                areas=np.array(m["area"], dtype=float), dual_sites=np.zeros((ntri, 2)), edge_mesh=em,
+                voronoi_polygons=[np.zeros((3, 2)) for _ in range(len(sites))])
     return mesh
+
+
+def restored(mesh):
+    """The mesh after Mesh.to_hdf5 / Mesh.from_hdf5 (the full mesh, as every saved Device / Solution carries it)."""
+    import h5py
+    from tdgl.finite_volume.mesh import Mesh
+
+    with h5py.File(f"restored-{id(mesh)}.h5", "w", driver="core", backing_store=False) as f:
+        mesh.to_hdf5(f.create_group("mesh"))
+        if not Mesh.is_restorable(f["mesh"]):
+            raise core.MachineryFailure("the saved mesh is not restorable: the round trip would recompute it")
+        return Mesh.from_hdf5(f["mesh"])
 
 
 def link_exponents(dirs, q):
@@ -203,8 +218,8 @@ def replay_exact(tdgl, a, tmp):
     A = link_exponents(m["dir"], q)
     ev = []
 
-    def op(name, src, path, qq, M):
-        ev.append({"ev": "op", "op": name, "src": src, "path": path, "q": list(qq), "m": gmat(M)})
+    def op(name, src, path, qq, M, fixed=()):
+        ev.append({"ev": "op", "op": name, "src": src, "path": path, "q": list(qq), "m": gmat(M), "fixed": [int(x) + 1 for x in fixed]})
 
     # -- the builders (code)
     op("div", "code", "build", zeros, ops_mod.build_divergence(mesh).toarray())
@@ -226,6 +241,26 @@ def replay_exact(tdgl, a, tmp):
     mo.set_link_exponents(A)
     op("covgrad", "code", "refresh", q, mo.psi_gradient.toarray())
     op("covlap", "code", "refresh", q, mo.psi_laplacian.toarray())
+    # -- MeshOperators of a device with terminals: some boundary sites are "fixed"; psi pinned there (terminal_psi a number:
+    #    fix_psi=True) or not (terminal_psi=None: fix_psi=False); first build and refresh in place
+    fixed = sorted(set(int(x) for x in np.array(m["edges"])[m["bidx"][0] - 1] - 1))
+    for flag, tag in ((True, "pin"), (False, "nopin")):
+        mp = ops_mod.MeshOperators(mesh, SparseSolver.SUPERLU, fixed_sites=np.array(fixed, dtype=np.int64), fix_psi=flag)
+        mp.set_link_exponents(A)
+        op("covgrad", "code", tag + ":build", q, mp.psi_gradient.toarray(), fixed)
+        op("covlap", "code", tag + ":build", q, mp.psi_laplacian.toarray(), fixed)
+        mp.set_link_exponents(link_exponents(m["dir"], q0))
+        mp.set_link_exponents(A)
+        op("covgrad", "code", tag + ":refresh", q, mp.psi_gradient.toarray(), fixed)
+        op("covlap", "code", tag + ":refresh", q, mp.psi_laplacian.toarray(), fixed)
+    # -- the same mesh after a round trip through HDF5 (Mesh.to_hdf5 / Mesh.from_hdf5)
+    rmesh = restored(mesh)
+    op("div", "code", "restored", zeros, ops_mod.build_divergence(rmesh).toarray())
+    op("grad", "code", "restored", zeros, ops_mod.build_gradient(rmesh).toarray())
+    op("lap", "code", "restored", zeros, ops_mod.build_laplacian(rmesh)[0].toarray())
+    op("neumann", "code", "restored", zeros, ops_mod.build_neumann_boundary_laplacian(rmesh).toarray())
+    op("covgrad", "code", "restored", q, ops_mod.build_gradient(rmesh, link_exponents=A).toarray())
+    op("covlap", "code", "restored", q, ops_mod.build_laplacian(rmesh, link_exponents=A)[0].toarray())
     # -- the reference formulas (refops), validated by TLC on the same instance
     theta = refops.theta_of(A, arr["directions"])
     op("div", "ref", "formula", zeros, refops.divergence(n, arr["edges"], arr["dual"], arr["area"]))
@@ -388,6 +423,7 @@ def make_float_mesh(tdgl, a):
                      tdgl.Polygon("drain", points=box(0.1, H, center=(W / 2, 0)))]
         dev = tdgl.Device("d", layer=layer, film=film, holes=holes, terminals=terms, length_units="um")
         dev.make_mesh(max_edge_length=a.get("mel", 0.6), smooth=a.get("smooth", 0))
+        a["_device"] = dev
         return dev.mesh
     if kind == "lattice":
         nx, ny, s = a["nx"], a["ny"], a.get("scale", 0.37)
@@ -429,7 +465,9 @@ def float_trace(tdgl, a, tmp):
     from tdgl.finite_volume import operators as ops_mod
     from tdgl.solver.options import SparseSolver
 
+    a = dict(a)
     mesh = make_float_mesh(tdgl, a)
+    dev = a.pop("_device", None)
     arr = refops.arrays_of(mesh)
     n, edges, length, dual, area, bidx, dirs = (arr[k] for k in ("n", "edges", "length", "dual", "area", "bidx", "directions"))
     m = len(edges)
@@ -476,8 +514,35 @@ def float_trace(tdgl, a, tmp):
         "assembled_lap_annihilates_constants": max(quanta(v[2] @ np.ones(n), np.zeros(n), scale=float(np.abs(v[2]).max()))
                                                    for v in asm.values()),
     })
+    # the mesh after a round trip through HDF5 (Mesh.to_hdf5/from_hdf5; for devices also Device.to_hdf5/from_hdf5): the
+    # operators must be those of the mesh that was saved, and the geometric clauses must hold with |r_j - r_i| from the sites
+    rmeshes = [restored(mesh)]
+    if dev is not None:
+        path = os.path.join(tempfile.mkdtemp(prefix="dev", dir=tmp), "device.h5")
+        dev.to_hdf5(path)
+        rmeshes.append(tdgl.Device.from_hdf5(path).mesh)
+    rfacts = {"restored_operators_eq_formula": 0, "restored_grad_exact_on_linear": 0, "restored_boundary_flux_integrates": 0}
+    for rm in rmeshes:
+        rem = rm.edge_mesh
+        if not (np.array_equal(rem.edges, edges) and np.array_equal(rm.sites, mesh.sites)):
+            raise core.MachineryFailure("restored mesh has other sites / edges")
+        rD, rG = ops_mod.build_divergence(rm).toarray(), ops_mod.build_gradient(rm).toarray()
+        rL, rB = ops_mod.build_laplacian(rm)[0].toarray(), ops_mod.build_neumann_boundary_laplacian(rm).toarray()
+        geo = np.linalg.norm(rm.sites[edges[:, 1]] - rm.sites[edges[:, 0]], axis=1)
+        rfacts["restored_operators_eq_formula"] = max(rfacts["restored_operators_eq_formula"], quanta(rD, Dr), quanta(rG, Gr_),
+                                                      quanta(rL, Lr_), quanta(rB, Br))
+        rfacts["restored_grad_exact_on_linear"] = max(rfacts["restored_grad_exact_on_linear"],
+                                                      quanta(rG @ f, (alpha * dirs[:, 0] + beta * dirs[:, 1]) / geo, scale=max(abs(alpha), abs(beta))))
+        rfacts["restored_boundary_flux_integrates"] = max(rfacts["restored_boundary_flux_integrates"],
+                                                          quanta(np.asarray(rm.areas) @ rB, geo[np.asarray(rem.boundary_edge_indices)]))
+    scalar.update(rfacts)
     kdim = int((np.abs(lam) <= 1e-9 * lscale).sum())
     ev = [{"ev": "facts", "group": "scalar", "facts": scalar, "kdim": kdim}]
+    # sites that play the part of current terminals (fixed sites of MeshOperators)
+    if dev is not None and dev.terminals:
+        fixed = np.concatenate([t.site_indices for t in dev.terminal_info()]).astype(np.int64)
+    else:
+        fixed = np.asarray(mesh.boundary_indices[:4], dtype=np.int64)
     # covariant operators for random real vector potentials, built and refreshed
     mo = ops_mod.MeshOperators(mesh, SparseSolver.SUPERLU, fixed_sites=np.array([], dtype=np.int64), fix_psi=True)
     mo.set_link_exponents(rng.normal(size=(m, 2)))
@@ -493,7 +558,28 @@ def float_trace(tdgl, a, tmp):
         psi = rng.normal(size=n) + 1j * rng.normal(size=n)
         J = mo.get_supercurrent(psi)
         aLA = area[:, None] * Lr
-        ev.append({"ev": "facts", "group": "cov", "kdim": 0, "facts": {
+        # with fixed (terminal) sites: psi not pinned (terminal_psi=None -> fix_psi=False): the free operator; pinned: identity rows
+        pinfacts = {"unpinned_covlap_eq_formula": 0, "unpinned_covlap_hermitian": 0, "pinned_covlap_eq_formula": 0,
+                    "pinned_paths_covgrad_eq_formula": 0}
+        Lpin = Lf.copy()
+        Lpin[fixed, :] = 0
+        Lpin[fixed, fixed] = 1
+        for flag in (True, False):
+            mp = ops_mod.MeshOperators(mesh, SparseSolver.SUPERLU, fixed_sites=fixed, fix_psi=flag)
+            for stage in ("build", "refresh"):
+                if stage == "refresh":
+                    mp.set_link_exponents(rng.normal(size=(m, 2)))
+                mp.set_link_exponents(A)
+                Lp, Gp = mp.psi_laplacian.toarray(), mp.psi_gradient.toarray()
+                pinfacts["pinned_paths_covgrad_eq_formula"] = max(pinfacts["pinned_paths_covgrad_eq_formula"], quanta(Gp, Gf))
+                if flag:
+                    pinfacts["pinned_covlap_eq_formula"] = max(pinfacts["pinned_covlap_eq_formula"], quanta(Lp, Lpin))
+                else:
+                    pinfacts["unpinned_covlap_eq_formula"] = max(pinfacts["unpinned_covlap_eq_formula"], quanta(Lp, Lf))
+                    pinfacts["unpinned_covlap_hermitian"] = max(pinfacts["unpinned_covlap_hermitian"],
+                                                                quanta(area[:, None] * Lp, (area[:, None] * Lp).conj().T))
+        ev.append({"ev": "facts", "group": "cov", "kdim": 0, "nfixed": int(len(fixed)), "facts": {
+            **pinfacts,
             "covgrad_code_eq_formula": quanta(Gb, Gf), "covlap_code_eq_formula": quanta(Lb, Lf),
             "covgrad_refresh_eq_formula": quanta(Gr, Gf), "covlap_refresh_eq_formula": quanta(Lr, Lf),
             "covlap_hermitian": max(quanta(aLA, aLA.conj().T), quanta(area[:, None] * Lb, (area[:, None] * Lb).conj().T)),
